@@ -433,7 +433,13 @@ fn run_crash(case: &RunCase) -> CaseReport {
             check_artifacts(&rit.sandbox, &values, point, &mut rep);
             let do_surface = evaluated % (case.surface_stride.max(1) as u64) == 0;
             if do_surface {
-                surface_compare(&rit, &case.params, point, "recovered", &mut rep);
+                // A run has more than one writer thread: the image taken at THIS thread's hook point
+                // can at the same time sit between the truth append and a cache effect of ANOTHER
+                // writer (a legitimate crash state, and exactly the listed stale-cache finding), so
+                // the point name says nothing about which caches are behind. Read-surface
+                // divergences of this group are therefore signed `recovery|mid_run|surface|<read>`;
+                // the single-actor group crash_points keeps the per-point signatures.
+                surface_compare(&rit, &case.params, "mid_run", "recovered", &mut rep);
             }
             // ---- continuation through a restarted ROUTER over the same image
             let known_threads: Vec<String> = values
